@@ -223,7 +223,7 @@ def compare(hist, lines):
 # ---- generation ------------------------------------------------------------------------------------
 def gen(cfg_file, seed, num, depth, workdir, timeout=600):
     os.makedirs(workdir, exist_ok=True)
-    for f in ("Minimq.tla", "MC_flow.tla", "MC_sim.tla", cfg_file):
+    for f in ("Minimq.tla", "MC_flow.tla", "Quota.tla", "MC_sim.tla", cfg_file):
         subprocess.run(["cp", os.path.join(SPEC, f), workdir], check=True)
     cmd = "timeout %d %s -workers 1 -seed %d -simulate num=%d -depth %d -metadir %s/meta -cleanup -noGenerateSpecTE -config %s MC_sim.tla" % (
         timeout, TLC, seed, num, depth, workdir, cfg_file)
